@@ -847,6 +847,7 @@ func init() {
 			{Name: "tools-addr2line", Quick: 16, Thor: 400, Run: runToolsA2L},
 			{Name: "setters", Quick: 8, Thor: 100, Run: runSetters},
 			{Name: "options", Quick: 16, Thor: 400, Run: runOptions},
+			{Name: "tls", Quick: 16, Thor: 400, Run: c16.RunTLSFree},
 		},
 		CaseTimeout:   2 * time.Minute,
 		HangTries:     3,
